@@ -7,7 +7,7 @@
    (Kids order and count, boxes, Rotate, Contents bytes, Resources down to font files and
    image bytes) is part of the unfolding of the page tree root. *)
 From Coq Require Import List ZArith NArith Bool.
-From PV Require Import C20.Model C20.Spec C20.Proofs C20.ProofsEqual C20.ProofsDedup C20.ProofsObs C20.ProofsTerm.
+From PV Require Import C20.Model C20.Spec C20.Proofs C20.ProofsEqual C20.ProofsDedup C20.ProofsObs C20.ProofsTerm C20.ProofsRes.
 Import ListNotations.
 Open Scope Z_scope.
 
@@ -110,6 +110,29 @@ Print Assumptions C20_unfolding_observes.
 Theorem C20_simb_decides_sim : forall n g1 o1 g2 o2, simb n g1 o1 g2 o2 = true <-> sim n g1 o1 g2 o2.
 Proof. exact simb_spec. Qed.
 Print Assumptions C20_simb_decides_sim.
+
+(* 7. Resource consolidation (ConsolidatePageResources, run by OptimizeXRefTable ->
+      optimizeResourceDicts): every page gets a pruned CLONE of its (possibly shared:
+      indirect category dict, shared Resources dict, inherited Resources) category dict.
+      For every store of shared dicts, every list of pages (any sharing, any subsets of used
+      names): the shared dicts are unchanged, and every page resolves every name its content
+      uses to the object it resolved to before, whatever was pruned for the other pages. *)
+Theorem C20_consolidate_preserves_resolution : forall st pages,
+  fst (consolidateCloned st pages) = st /\
+  length (snd (consolidateCloned st pages)) = length pages /\
+  forall i p d n, nth_error pages i = Some p ->
+    nth_error (snd (consolidateCloned st pages)) i = Some d ->
+    memb n (snd p) = true -> lookupR n d = lookupR n (st (fst p)).
+Proof. exact consolidate_preserves_resolution. Qed.
+Print Assumptions C20_consolidate_preserves_resolution.
+
+(* ... which is what the clone is for: the same pass pruning in place loses a name that a
+   later page sharing the dict uses (page 1 uses /F1, page 2 uses /F2 of the same dict). *)
+Theorem C20_consolidate_inplace_refuted : exists st pages i p d n,
+  nth_error pages i = Some p /\ nth_error (snd (consolidateInPlace st pages)) i = Some d /\
+  memb n (snd p) = true /\ lookupR n (st (fst p)) = Some 11 /\ lookupR n d = None.
+Proof. exact consolidate_inplace_refuted. Qed.
+Print Assumptions C20_consolidate_inplace_refuted.
 
 (* ---- non-vacuity ---- *)
 (* two cyclic font-like structures (child <-> parent back references) with different
